@@ -157,6 +157,13 @@ func (r *Report) finish(explanation string, assumptions []string) int {
 			nOK++
 		}
 	}
+	if show := os.Getenv("VERIF_SHOW"); show != "" {
+		for _, o := range r.Obs {
+			if strings.HasPrefix(o.Rule, show) {
+				fmt.Printf("  [%v] %s | %s | %s | %s\n", o.OK, o.Rule, o.Construct, o.Pos, o.Detail)
+			}
+		}
+	}
 	fmt.Printf("property %s tier=%s: %d obligations evaluated, %d discharged, %d distinct constructs, %d violations\n",
 		r.Prop, r.Tier, len(r.Obs), nOK, len(distinct), len(viol))
 	var samples []any
